@@ -213,7 +213,8 @@ def rule_C09_no_other_alloc(ctx, rule="C09-onlygate"):
     F, cg = ctx.F, ctx.cg
     n = 0
     for path, b in F.bodies.items():
-        if path.startswith(HEAP_MOD) or ctx.F.fns.get(path, {}).get("impl_self") == "alloc::string::String":
+        isf = ctx.F.fns.get(path, {}).get("impl_self") or ""
+        if path.startswith(HEAP_MOD) or isf == "alloc::string::String" or (isf and isf.split("<")[0] not in F.adts and isf.split("<")[0].split("::")[0] in ("alloc", "std", "core")):
             # impls *for String* (From<LeanString> for String, Extend<LeanString> for String)
             # produce a std String: outside every LeanString property
             continue
